@@ -207,13 +207,19 @@ def vertexChordDist2 (c : Cell) (p : V3) (xHi yHi : Bool) : F64 :=
   let y := if yHi then c.uv.2.2 else c.uv.2.1
   chordAngleBetweenPoints p (pointFromCoords x y F64.one)
 
+/-- `const edgeIsClosestMargin = 32 * dblError` (s2/cell.go, repair D58) as the float64 the compiler materialises:
+    `dblError = 1.110223024625156e-16` is a DECIMAL literal (float64 `3c9ffffffffffffc` = 2^-53·(1 − 2^-51), four ulps
+    below 2^-53); the untyped product `32 * dblError` is exact and rounds once, to `2^-48·(1 − 2^-51)`, which is also
+    `32 · float64(dblError)` exactly (a power-of-two factor).  NOT 2^-48. -/
+def edgeIsClosestMargin : F64 := ⟨0x3ceffffffffffffc⟩
+
 def uEdgeIsClosest (c : Cell) (p : V3) (vHi : Bool) : Bool :=
   let u0 := c.uv.1.1
   let u1 := c.uv.1.2
   let v := if vHi then c.uv.2.2 else c.uv.2.1
   let dir0 : V3 := ⟨v * v + F64.one, (-u0) * v, -u0⟩
   let dir1 : V3 := ⟨v * v + F64.one, (-u1) * v, -u1⟩
-  F64.gt (p.dot dir0) fzero && F64.lt (p.dot dir1) fzero
+  F64.gt (p.dot dir0) edgeIsClosestMargin && F64.lt (p.dot dir1) (-edgeIsClosestMargin)
 
 def vEdgeIsClosest (c : Cell) (p : V3) (uHi : Bool) : Bool :=
   let v0 := c.uv.2.1
@@ -221,7 +227,7 @@ def vEdgeIsClosest (c : Cell) (p : V3) (uHi : Bool) : Bool :=
   let u := if uHi then c.uv.1.2 else c.uv.1.1
   let dir0 : V3 := ⟨(-u) * v0, u * u + F64.one, -v0⟩
   let dir1 : V3 := ⟨(-u) * v1, u * u + F64.one, -v1⟩
-  F64.gt (p.dot dir0) fzero && F64.lt (p.dot dir1) fzero
+  F64.gt (p.dot dir0) edgeIsClosestMargin && F64.lt (p.dot dir1) (-edgeIsClosestMargin)
 
 /-- `along`, `w`: the two in-plane components of the target (OQ² = along² + w²/(1+uv²), a sum of squares) -/
 def edgeDistance (ij uv along w : F64) : F64 :=
